@@ -202,6 +202,17 @@ void fiber_io_shutdown() {
 
 static __thread int thread_locked = 0;
 
+// errno is per kernel thread, and a fiber can resume on another kernel thread
+// inside fiber_wait_for_event(). glibc declares __errno_location() as a const
+// function, so the compiler may reuse the address it returned before the wait;
+// always fetch it through a call the compiler cannot merge.
+static __attribute__((noinline)) int fiber_io_errno(void) { return errno; }
+
+static inline int would_block_errno(void) {
+  const int err = fiber_io_errno();
+  return err == EWOULDBLOCK || err == EAGAIN;
+}
+
 int fiber_io_lock_thread() {
   thread_locked = 1;
   return FIBER_SUCCESS;
@@ -298,7 +309,7 @@ int accept(ACCEPTPARAMS) {
   int sock = fibershim_accept(sockfd, addr, addrlen);
   // another fiber may take the connection between the wake-up and the retry:
   // keep waiting, like read() does
-  while (sock < 0 && (errno == EWOULDBLOCK || errno == EAGAIN) &&
+  while (sock < 0 && would_block_errno() &&
          should_block(sockfd)) {
     if (!fiber_wait_for_event(sockfd, FIBER_POLL_IN)) {
       return -1;
@@ -330,7 +341,7 @@ ssize_t read(int fd, void* buf, size_t count) {
       }
     }
     ret = fibershim_read(fd, buf, count);
-  } while (ret < 0 && (errno == EWOULDBLOCK || errno == EAGAIN) &&
+  } while (ret < 0 && would_block_errno() &&
            should_block(fd));
 
   return ret;
@@ -349,7 +360,7 @@ ssize_t readv(int fd, const struct iovec* iov, int iovcnt) {
       }
     }
     ret = fibershim_readv(fd, iov, iovcnt);
-  } while (ret < 0 && (errno == EWOULDBLOCK || errno == EAGAIN) &&
+  } while (ret < 0 && would_block_errno() &&
            should_block(fd));
 
   return ret;
@@ -368,7 +379,7 @@ ssize_t recv(int fd, void* buf, size_t len, int flags) {
       }
     }
     ret = fibershim_recv(fd, buf, len, flags);
-  } while (ret < 0 && (errno == EWOULDBLOCK || errno == EAGAIN) &&
+  } while (ret < 0 && would_block_errno() &&
            !(flags & MSG_DONTWAIT) && should_block(fd));
 
   return ret;
@@ -387,7 +398,7 @@ ssize_t recvfrom(RECVFROMPARAMS) {
       }
     }
     ret = fibershim_recvfrom(sockfd, buf, len, flags, src_addr, addrlen);
-  } while (ret < 0 && (errno == EWOULDBLOCK || errno == EAGAIN) &&
+  } while (ret < 0 && would_block_errno() &&
            !(flags & MSG_DONTWAIT) && should_block(sockfd));
 
   return ret;
@@ -406,7 +417,7 @@ ssize_t recvmsg(int sockfd, struct msghdr* msg, int flags) {
       }
     }
     ret = fibershim_recvmsg(sockfd, msg, flags);
-  } while (ret < 0 && (errno == EWOULDBLOCK || errno == EAGAIN) &&
+  } while (ret < 0 && would_block_errno() &&
            !(flags & MSG_DONTWAIT) && should_block(sockfd));
 
   return ret;
@@ -418,7 +429,7 @@ ssize_t write(int fd, const void* buf, size_t count) {
   }
 
   int ret = fibershim_write(fd, buf, count);
-  while (ret < 0 && (errno == EWOULDBLOCK || errno == EAGAIN) &&
+  while (ret < 0 && would_block_errno() &&
          should_block(fd)) {
     if (!fiber_wait_for_event(fd, FIBER_POLL_OUT)) {
       return -1;
@@ -435,7 +446,7 @@ ssize_t writev(int fd, const struct iovec* iov, int iovcnt) {
   }
 
   int ret = fibershim_writev(fd, iov, iovcnt);
-  while (ret < 0 && (errno == EWOULDBLOCK || errno == EAGAIN) &&
+  while (ret < 0 && would_block_errno() &&
          should_block(fd)) {
     if (!fiber_wait_for_event(fd, FIBER_POLL_OUT)) {
       return -1;
@@ -452,7 +463,7 @@ ssize_t send(int sockfd, const void* buf, size_t len, int flags) {
   }
 
   ssize_t ret = fibershim_send(sockfd, buf, len, flags);
-  while (ret < 0 && (errno == EWOULDBLOCK || errno == EAGAIN) &&
+  while (ret < 0 && would_block_errno() &&
          !(flags & MSG_DONTWAIT) && should_block(sockfd)) {
     if (!fiber_wait_for_event(sockfd, FIBER_POLL_OUT)) {
       return -1;
@@ -470,7 +481,7 @@ ssize_t sendto(int sockfd, const void* buf, size_t len, int flags,
   }
 
   ssize_t ret = fibershim_sendto(sockfd, buf, len, flags, dest_addr, addrlen);
-  while (ret < 0 && (errno == EWOULDBLOCK || errno == EAGAIN) &&
+  while (ret < 0 && would_block_errno() &&
          !(flags & MSG_DONTWAIT) && should_block(sockfd)) {
     if (!fiber_wait_for_event(sockfd, FIBER_POLL_OUT)) {
       return -1;
@@ -487,7 +498,7 @@ ssize_t sendmsg(int sockfd, const struct msghdr* msg, int flags) {
   }
 
   ssize_t ret = fibershim_sendmsg(sockfd, msg, flags);
-  while (ret < 0 && (errno == EWOULDBLOCK || errno == EAGAIN) &&
+  while (ret < 0 && would_block_errno() &&
          !(flags & MSG_DONTWAIT) && should_block(sockfd)) {
     if (!fiber_wait_for_event(sockfd, FIBER_POLL_OUT)) {
       return -1;
@@ -504,7 +515,7 @@ int connect(int sockfd, const struct sockaddr* addr, socklen_t addrlen) {
   }
 
   int ret = fibershim_connect(sockfd, addr, addrlen);
-  if (ret < 0 && errno == EINPROGRESS && should_block(sockfd)) {
+  if (ret < 0 && fiber_io_errno() == EINPROGRESS && should_block(sockfd)) {
     if (!fiber_wait_for_event(sockfd, FIBER_POLL_OUT)) {
       return -1;
     }
